@@ -21,9 +21,130 @@ import (
 // Work is measured by the step counters behind the `verif` build tag, never by a clock.
 
 type ScaleCase struct {
-	Family string `json:"family"`
-	N      int    `json:"n"`
-	M      int    `json:"m,omitempty"` // implementers (family depth)
+	Family string       `json:"family"`
+	N      int          `json:"n"`
+	M      int          `json:"m,omitempty"` // implementers (family depth)
+	Recipe *ScaleRecipe `json:"recipe,omitempty"`
+}
+
+// ScaleRecipe composes a document family from independent choices: how the first fragment is
+// reached from the root (several contexts, optionally under different concrete types and under
+// one response key), which later fragments every fragment spreads, and how (directly, through
+// a field, through aliased fields).
+type ScaleRecipe struct {
+	Contexts []ScaleContext `json:"contexts"`
+	Edges    string         `json:"edges"` // next | next2 | later | half | mod3
+	Wrap     string         `json:"wrap"`  // direct | field | alias | mixed
+}
+
+type ScaleContext struct {
+	OnType int  `json:"onType"` // -1: no type condition; else ... on T<OnType>
+	Keyed  bool `json:"keyed"`  // spread under `child: next { }` instead of directly
+}
+
+func (r *ScaleRecipe) edges(i, n int) []int {
+	var out []int
+	add := func(j int) {
+		if j > i && j < n {
+			for _, x := range out {
+				if x == j {
+					return
+				}
+			}
+			out = append(out, j)
+		}
+	}
+	switch r.Edges {
+	case "next":
+		add(i + 1)
+	case "next2":
+		add(i + 1)
+		add(i + 2)
+	case "later":
+		for j := i + 1; j < n; j++ {
+			add(j)
+		}
+	case "half":
+		add(i + 1)
+		add(i + n/2)
+	case "mod3":
+		for j := i + 1; j < n; j++ {
+			if (j-i)%3 == 1 {
+				add(j)
+			}
+		}
+	}
+	return out
+}
+
+func recipeDoc(r *ScaleRecipe, n int) string {
+	var sb strings.Builder
+	sb.WriteString("{ node { ")
+	for _, c := range r.Contexts {
+		if c.OnType >= 0 {
+			fmt.Fprintf(&sb, "... on T%d { ", c.OnType)
+		}
+		if c.Keyed {
+			sb.WriteString("child: next { ...F0 } ")
+		} else {
+			sb.WriteString("...F0 ")
+		}
+		if c.OnType >= 0 {
+			sb.WriteString("} ")
+		}
+	}
+	sb.WriteString("} }")
+	for i := 0; i < n; i++ {
+		fmt.Fprintf(&sb, " fragment F%d on Node { v ", i)
+		for k, j := range r.edges(i, n) {
+			wrap := r.Wrap
+			// every edge of one document goes through the same response key: two keys per level
+			// would make the response itself (and so any plan of it) exponential in n
+			if wrap == "mixed" {
+				wrap = []string{"direct", "field"}[(i+k)%2]
+			}
+			switch wrap {
+			case "direct":
+				fmt.Fprintf(&sb, "...F%d ", j)
+			case "field":
+				fmt.Fprintf(&sb, "next { ...F%d } ", j)
+			default:
+				fmt.Fprintf(&sb, "e: next { ...F%d } ", j)
+			}
+		}
+		sb.WriteString("}")
+	}
+	return sb.String()
+}
+
+// c19RecipeLadder measures a recipe at sizes growing by 1.5 and compares consecutive sizes:
+// a polynomial of degree <= 5 grows by at most 1.5^5 = 7.6 per step, 2^n by 2^(n/2).
+func c19RecipeLadder(c *ScaleCase) (msg string, series []uint64) {
+	s := scaleSchema(4)
+	w := &ref.World{S: s, Salt: 5}
+	b, err := build.New(s, w, build.Options{})
+	if err != nil {
+		return "HARNESS: " + err.Error(), nil
+	}
+	sizes := []int{8, 12, 18, 27}
+	if c.Recipe.Edges != "later" {
+		sizes = append(sizes, 40)
+	}
+	var prev uint64
+	for i, n := range sizes {
+		sm, err := measure(b, w, recipeDoc(c.Recipe, n))
+		if err != nil {
+			return fmt.Sprintf("HARNESS: recipe %+v n=%d: %v", *c.Recipe, n, err), series
+		}
+		total := sm.validate + sm.plan + sm.exec
+		series = append(series, total)
+		if i > 0 && total > 50000 && float64(total) > 12*float64(prev) {
+			return fmt.Sprintf("recipe %+v: work grows from %d steps at n=%d to %d steps at n=%d (x%.1f for n x1.5; degree-5 growth gives x7.6)\n  series over n=%v: %v (validate %d, plan %d, execute %d at the last size)\n  document at n=4: %s",
+				*c.Recipe, prev, sizes[i-1], total, n, float64(total)/float64(prev), sizes[:i+1], series, sm.validate, sm.plan, sm.exec, recipeDoc(c.Recipe, 4)), series
+		}
+		prev = total
+	}
+	return "", series
 }
 
 // scaleSchema: interface Node {next: Node, v: Int, list: [Node]} with m implementers, plus plain fields.
@@ -304,12 +425,34 @@ func TestC19_Implementers(t *testing.T) {
 func TestC19_Gen(t *testing.T) {
 	var rc ScaleCase
 	if loadReplay(t, "C19", &rc, "gen") {
+		if rc.Recipe != nil {
+			if msg, _ := c19RecipeLadder(&rc); msg != "" {
+				t.Fatalf("VERIF-FAIL property=C19 sub=gen replay=%s :: %s", replayFile(), msg)
+			}
+			return
+		}
 		if msg, _ := c19Ladder(&rc, []int{4, rc.N}); msg != "" {
 			t.Fatalf("VERIF-FAIL property=C19 sub=gen replay=%s :: %s", replayFile(), msg)
 		}
 		return
 	}
 	rapid.Check(t, func(rt *rapid.T) {
+		if gen.Chance(rt, 50, "recipe") {
+			r := &ScaleRecipe{Edges: []string{"next", "next2", "later", "half", "mod3"}[gen.Uniform(rt, 5, "edges")], Wrap: []string{"direct", "field", "alias", "mixed"}[gen.Uniform(rt, 4, "wrap")]}
+			for i, k := 0, gen.Intn(rt, 1, 3, "contexts"); i < k; i++ {
+				r.Contexts = append(r.Contexts, ScaleContext{OnType: gen.Uniform(rt, 5, "onType") - 1, Keyed: gen.Chance(rt, 50, "keyed")})
+			}
+			c := &ScaleCase{Family: "recipe", Recipe: r}
+			msg, series := c19RecipeLadder(c)
+			stats.R.Class("gen_family_recipe_" + r.Edges)
+			stats.R.Case(caseKey(c), true, func() interface{} {
+				return map[string]interface{}{"recipe": r, "steps": series}
+			})
+			if msg != "" {
+				violation(rt, "C19", "gen", c, "%s", msg)
+			}
+			return
+		}
 		c := &ScaleCase{Family: scaleFamilies[gen.Uniform(rt, len(scaleFamilies), "family")], N: rapid.IntRange(5, 64).Draw(rt, "n"), M: []int{2, 4, 16, 64}[gen.Uniform(rt, 4, "m")]}
 		if c.Family == "dag" || c.Family == "nestdag" {
 			if c.N > 28 {
